@@ -24,20 +24,16 @@ def Box.inFlow (b : Box) : Bool := !b.makesContext && !b.positioned && !b.floate
     (opacity, transform, overflow) is painted at layer 8 like z-index 0 -/
 def Box.specZ (b : Box) : Int := if b.positioned then b.z.getD 0 else 0
 
-/-- `q = true`: read z-index the way stacking.go does (also on non-positioned boxes) — used only to
-    explain a disagreement; the specification is `q = false` -/
-def Box.zFor (q : Bool) (b : Box) : Int := if q then b.zIndex else b.specZ
-
 mutual
   /-- a real stacking context -/
-  def specReal (q : Bool) : Box → List PEv
+  def specReal : Box → List PEv
     | .mk id p z f c bl ib hl children =>
-      let parts := participants q children
+      let parts := participants children
       (if bl || ib then [(id, Layer.background), (id, Layer.border)] else [])
       ++ ((sortZ (parts.filter (·.1 < 0))).flatMap (·.2))
-      ++ ((flowBlocks q children).flatMap fun b => [(b, Layer.background), (b, Layer.border)])
-      ++ (floatsOf q children).flatten
-      ++ (((if hl then [id] else []) ++ flowLines q children).map fun b => (b, Layer.content))
+      ++ ((flowBlocks children).flatMap fun b => [(b, Layer.background), (b, Layer.border)])
+      ++ (floatsOf children).flatten
+      ++ (((if hl then [id] else []) ++ flowLines children).map fun b => (b, Layer.content))
       ++ ((parts.filter (·.1 == 0)).flatMap (·.2))
       ++ ((sortZ (parts.filter (·.1 > 0))).flatMap (·.2))
       ++ [(id, .outline)]
@@ -45,52 +41,49 @@ mutual
   /-- a float or a positioned box with z-index auto: "as if it created a new stacking context, but any
       positioned descendants and descendants which actually create a new stacking context are part of
       the parent stacking context" -/
-  def specPseudo (q : Bool) : Box → List PEv
+  def specPseudo : Box → List PEv
     | .mk id p z f c bl ib hl children =>
       (if bl || ib then [(id, Layer.background), (id, Layer.border)] else [])
-      ++ ((flowBlocks q children).flatMap fun b => [(b, Layer.background), (b, Layer.border)])
-      ++ (floatsOf q children).flatten
-      ++ (((if hl then [id] else []) ++ flowLines q children).map fun b => (b, Layer.content))
+      ++ ((flowBlocks children).flatMap fun b => [(b, Layer.background), (b, Layer.border)])
+      ++ (floatsOf children).flatten
+      ++ (((if hl then [id] else []) ++ flowLines children).map fun b => (b, Layer.content))
       ++ [(id, .outline)]
 
   /-- steps 3/8/9: the descendants that take part in the z-ordering of the enclosing real context, in tree order -/
-  def participants (q : Bool) : List Box → List CCtx
+  def participants : List Box → List CCtx
     | [] => []
     | .mk id p z f c bl ib hl children :: rest =>
       let b := Box.mk id p z f c bl ib hl children
-      (if b.makesContext then [(b.zFor q, specReal q b)]
-       else if p then (0, specPseudo q b) :: participants q children
-       else participants q children)
-      ++ participants q rest
+      (if b.makesContext then [(b.specZ, specReal b)]
+       else if p then (0, specPseudo b) :: participants children
+       else participants children)
+      ++ participants rest
 
   /-- step 4 -/
-  def flowBlocks (q : Bool) : List Box → List Nat
+  def flowBlocks : List Box → List Nat
     | [] => []
     | .mk id p z f c bl ib hl children :: rest =>
       let b := Box.mk id p z f c bl ib hl children
-      (if b.inFlow then (if bl then [id] else []) ++ flowBlocks q children else []) ++ flowBlocks q rest
+      (if b.inFlow then (if bl then [id] else []) ++ flowBlocks children else []) ++ flowBlocks rest
 
   /-- step 5 -/
-  def floatsOf (q : Bool) : List Box → List (List PEv)
+  def floatsOf : List Box → List (List PEv)
     | [] => []
     | .mk id p z f c bl ib hl children :: rest =>
       let b := Box.mk id p z f c bl ib hl children
-      (if b.inFlow then floatsOf q children
-       else if !b.makesContext && !p && f then [specPseudo q b]
-       else []) ++ floatsOf q rest
+      (if b.inFlow then floatsOf children
+       else if !b.makesContext && !p && f then [specPseudo b]
+       else []) ++ floatsOf rest
 
   /-- step 7: in-flow blocks with line boxes -/
-  def flowLines (q : Bool) : List Box → List Nat
+  def flowLines : List Box → List Nat
     | [] => []
     | .mk id p z f c bl ib hl children :: rest =>
       let b := Box.mk id p z f c bl ib hl children
-      (if b.inFlow then (if bl && hl then [id] else []) ++ flowLines q children else []) ++ flowLines q rest
+      (if b.inFlow then (if bl && hl then [id] else []) ++ flowLines children else []) ++ flowLines rest
 end
 
 /-- the page: the root element's box always forms a stacking context -/
-def specOrder (root : Box) : List PEv := specReal false root
-
-/-- Appendix E with stacking.go's reading of z-index -/
-def specOrderQ (root : Box) : List PEv := specReal true root
+def specOrder (root : Box) : List PEv := specReal root
 
 end WR.C16
